@@ -52,8 +52,8 @@ func putDriver(d *bpfnative.Driver) { poolMu.Lock(); pool = append(pool, d); poo
 
 // addresses used by events and probes
 var (
-	v4 = []net.IP{nil, net.IPv4(10, 1, 0, 2).To4(), net.IPv4(10, 1, 0, 3).To4()}
-	v6 = []net.IP{nil, net.ParseIP("2001:db8:1::2"), net.ParseIP("2001:db8:1::3")}
+	v4     = []net.IP{nil, net.IPv4(10, 1, 0, 2).To4(), net.IPv4(10, 1, 0, 3).To4()}
+	v6     = []net.IP{nil, net.ParseIP("2001:db8:1::2"), net.ParseIP("2001:db8:1::3")}
 	ranges = []string{"", "10.1.0.0/24", "10.2.0.0/16"}
 )
 
@@ -64,8 +64,8 @@ type Probe struct {
 	Src   string `json:"src"`   // "a1" | "a2" | "near" | "rev" | "in2" | "out"
 	Trunc bool   `json:"trunc"` // IP header cut short
 	// abstract facts about the source address (the trusted, byte-level part of the harness)
-	Addr   int   `json:"addr"`   // index of the bound-address constant it equals (0 = none)
-	InRng  []int `json:"inrng"`  // indices of the configured-range constants containing it
+	Addr  int   `json:"addr"`  // index of the bound-address constant it equals (0 = none)
+	InRng []int `json:"inrng"` // indices of the configured-range constants containing it
 }
 
 func srcV4(kind string) net.IP {
@@ -171,9 +171,10 @@ func frame(p Probe) []byte {
 }
 
 type Sys struct {
-	NMacs  int
-	probes []Probe
-	events []core.Event
+	NoConfig bool // the loaded BPF object lacks the optional antispoof_config map
+	NMacs    int
+	probes   []Probe
+	events   []core.Event
 }
 
 func NewSys(nmacs int) *Sys {
@@ -192,9 +193,14 @@ func NewSys(nmacs int) *Sys {
 	}
 	return s
 }
-func (s *Sys) Name() string { return fmt.Sprintf("antispoof/m%d", s.NMacs) }
+func (s *Sys) Name() string {
+	if s.NoConfig {
+		return fmt.Sprintf("antispoof-noconfig/m%d", s.NMacs)
+	}
+	return fmt.Sprintf("antispoof/m%d", s.NMacs)
+}
 func (s *Sys) Config() map[string]any {
-	return map[string]any{"impl": "antispoof.Manager+antispoof.c", "nmacs": s.NMacs, "probes": s.probes, "initmode": 1}
+	return map[string]any{"impl": "antispoof.Manager+antispoof.c", "nmacs": s.NMacs, "probes": s.probes, "initmode": 1, "noconfig": s.NoConfig}
 }
 func (s *Sys) Events() []core.Event { return s.events }
 
@@ -216,7 +222,7 @@ func (s *Sys) New() core.Instance {
 	fields := map[string]string{"subscriber_bindings": "bindings", "antispoof_config": "config", "allowed_ranges_v4": "ranges"}
 	for _, mi := range mapInfos {
 		f, ok := fields[mi.Name]
-		if !ok {
+		if !ok || (s.NoConfig && f == "config") {
 			continue
 		}
 		km, err := bpfnative.NewKernelMap(mi)
